@@ -400,7 +400,10 @@ func Main(args []string) int {
 		}
 	}
 	// values that differ only in bytes a directory name or an id file might normalise: separators, NUL, blanks at the edges
-	family := []string{"a/b", "a_b", "a\x00b", "a b", "a", "a ", " a", "a\n", "\ta", " ", "_", "a\\b", "A", "a.", "a\r"}
+	family := []string{"a/b", "a_b", "a\x00b", "a b", "a", "a ", " a", "a\n", "\ta", " ", "_", "a\\b", "A", "a.", "a\r",
+		// bytes that are not valid UTF-8 (field values are arbitrary bytes; a value cut by a length limit ends inside a
+		// sequence): a clean-up for names, tags or labels must not merge them
+		"\xff", "\xfe", "a\xc3", "a\xc2", "a\xef\xbf\xbd", "a\xe2\x82"}
 	for _, a := range family {
 		for _, b := range family {
 			if o.Mine() {
